@@ -360,3 +360,12 @@ from suites import progenum as _pg
 for _n, _g in (("assignments", _pg.g_f1), ("augmented-assignments", _pg.g_f2), ("expressions-in-scopes", _pg.g_f8), ("binding-forms", _pg.g_f4),
                ("class-statements", _pg.g_f6), ("import-forms", _pg.g_f7), ("function-signatures", _pg.g_f3)):
     GROUPS[f"thorough:enum-{_n}"] = _th.only_thorough(_g)
+
+# the last step of the pipeline: convert_code_string returns the unparser's text (shared C10/C02 group)
+def _ccs(R, tier):
+    from suites import c10
+    c10.g_default_options(R, tier)
+
+
+GROUPS["convert_code_string"] = _ccs
+REPLAY.update({k: v for k, v in __import__("suites.c10", fromlist=["REPLAY"]).REPLAY.items() if k not in REPLAY})
